@@ -215,6 +215,70 @@ example : ∃ s, fireAll .repaired (init [⟨1, 1, 0, .failure, false⟩, ⟨2, 
       s.c.out.getLast? = some (.phaseFinished .failure false) := by
   decide
 
+/-! ### end to end: from any schedule of a unit phase to the process exit code -/
+
+/-- the result of a finished unit phase as the plan sees it: what it yielded before its closing PhaseFinished, the
+    status and "nothing to test" flag of that event, and the control state left behind -/
+def phaseRunOf (c : CSt) : PhaseRun :=
+  { evs := c.out.dropLast, status := (finalStatus c).1, nothingToTest := (finalStatus c).2, ctl := c.ctl }
+
+theorem exitCode_append_one (enabled : Nat → Bool) (a b : List PEv) (h : exitCode enabled a = 1) :
+    exitCode enabled (a ++ b) = 1 := by
+  rw [exit_code_spec] at h ⊢
+  rcases h with ⟨i, j, hm⟩ | ⟨i, st, r, hm, h2, h3⟩
+  · exact Or.inl ⟨i, j, by simp [hm]⟩
+  · exact Or.inr ⟨i, st, r, by simp [hm], h2, h3⟩
+
+theorem exitCode_of_mem_phaseFinished (enabled : Nat → Bool) (evs : List PEv) (i : Nat) (st : Status) (r : Option Reason)
+    (hm : PEv.phaseFinished i st r ∈ evs) (he : enabled i = true) (hf : st.failing = true) : exitCode enabled evs = 1 :=
+  (exit_code_spec enabled evs).2 (Or.inr ⟨i, st, r, hm, he, hf⟩)
+
+/-- **End to end, all schedules.** Take a plan whose first runnable phase `p` is an enabled unit phase, and let that
+    phase end in *any* terminal state `s` reachable by the LTS (any number of workers, any interleaving) without a stop
+    request. If the stream of that phase contains a failing scenario or a NonFatalError, the process exit code is 1. -/
+theorem failing_scenario_gives_exit_1 (v : Variant) (ops : List Script) (n : Nat) (m : Option Nat) (s : St)
+    (hm : m ≠ some 0) (hok : ∀ sc ∈ ops, ScriptOk sc)
+    (hr : Reach v (init ops n m) s) (_hdone : s.c.pc = .done) (hstop : s.c.ctl.stop = false)
+    (hfail : (∃ i st, Ev.scenFinished i st ∈ s.c.out ∧ st.failing = true) ∨ ∃ i, Ev.nonFatal i ∈ s.c.out)
+    (run : Nat → Ctl → PhaseRun) (p : PhaseCfg) (rest : List PhaseCfg) (ctl : Ctl)
+    (hen : p.enabled = true) (hgo : ctl.hasToStop = false) (hrun : run p.idx ctl = phaseRunOf s.c)
+    (enabled : Nat → Bool) (hen' : enabled p.idx = true) :
+    exitCode enabled (execute run ctl (p :: rest)) = 1 := by
+  have inv := (allInv_reach v _ s hr (allInv_init ops n m hm hok)).status
+  obtain ⟨hntt, hf⟩ := closed_as_failed s.c inv hstop hfail
+  have hcs : ctl.stop = false := by simp [Ctl.hasToStop] at hgo; exact hgo.1
+  unfold execute
+  simp only [hcs, Bool.false_eq_true, if_false]
+  apply exitCode_of_mem_phaseFinished enabled _ p.idx (finalStatus s.c).1
+    (if (finalStatus s.c).2 then some Reason.nothingToTest else if ctl.limit then some Reason.failureLimit else p.reason)
+  · simp only [runPhases, hen, hgo, Bool.not_false, Bool.and_self, if_true, hrun, phaseRunOf]
+    simp
+  · exact hen'
+  · exact hf
+
+/-- **Converse, repaired consumer.** If such a phase ends without stop or limit and the fold says "not failed", then
+    every operation of the phase has its closing event in the stream and none of those scenarios failed: exit code 0
+    is only reachable through operations that were all run to completion and reported. -/
+theorem clean_phase_means_all_operations_reported (ops : List Script) (n : Nat) (m : Option Nat) (s : St) (hn : 0 < n)
+    (hm : m ≠ some 0) (hok : ∀ sc ∈ ops, ScriptOk sc)
+    (hr : Reach .repaired (init ops n m) s) (hdone : s.c.pc = .done) (hns : s.c.ctl.hasToStop = false)
+    (hclean : (finalStatus s.c).1.failing = false) :
+    (∀ sc ∈ ops, finishedEv sc ∈ s.c.out) ∧ (∀ i st, Ev.scenFinished i st ∈ s.c.out → st.failing = false) ∧
+      (∀ i, Ev.nonFatal i ∉ s.c.out) := by
+  have hd := delivery_repaired ops n m s hn hr hdone hns
+  have inv := (allInv_reach .repaired _ s hr (allInv_init ops n m hm hok)).status
+  have hstop : s.c.ctl.stop = false := by simp [Ctl.hasToStop] at hns; exact hns.1
+  refine ⟨hd.2.2, ?_, ?_⟩
+  · intro i st hmem
+    cases hf : st.failing with
+    | false => rfl
+    | true =>
+      have := (closed_as_failed s.c inv hstop (Or.inl ⟨i, st, hmem, hf⟩)).2
+      rw [hclean] at this; cases this
+  · intro i hmem
+    have := (closed_as_failed s.c inv hstop (Or.inr ⟨i, hmem⟩)).2
+    rw [hclean] at this; cases this
+
 /-! ### the stateful phase -/
 
 open SV.Model.Stateful in
